@@ -105,6 +105,7 @@ const (
 	ScriptFail1 = 2 // asks (eid 1, ds 1); execute returns nothing => FAILURE
 	ScriptW4    = 3 // testdata.Wasm4: OBI input (ids, calldata) -> one raw request per id (eid = index)
 	ScriptOK1   = 4 // asks (eid 1, ds 1); returns "test" => SUCCESS
+	ScriptOKNil = 5 // asks (eid 1, ds 1); returns ZERO bytes (set_return_data with length 0) => SUCCESS with an empty result
 )
 
 const watFail1 = `
@@ -145,6 +146,30 @@ const watOK1 = `
 	  i32.const 1024
 	  i64.extend_i32_u
 	  i64.const 4
+	  call $set_return_data)
+	(table $T0 1 1 funcref)
+	(memory $memory (export "memory") 17)
+	(data (i32.const 1024) "test"))
+`
+
+const watOKNil = `
+(module
+	(type $t0 (func))
+	(type $t1 (func (param i64 i64 i64 i64)))
+	(type $t2 (func (param i64 i64)))
+	(import "env" "ask_external_data" (func $ask_external_data (type $t1)))
+	(import "env" "set_return_data" (func $set_return_data (type $t2)))
+	(func $prepare (export "prepare") (type $t0)
+	  i64.const 1
+	  i64.const 1
+	  i32.const 1024
+	  i64.extend_i32_u
+	  i64.const 4
+	  call $ask_external_data)
+	(func $execute (export "execute") (type $t0)
+	  i32.const 1024
+	  i64.extend_i32_u
+	  i64.const 0
 	  call $set_return_data)
 	(table $T0 1 1 funcref)
 	(memory $memory (export "memory") 17)
@@ -386,7 +411,7 @@ func (w *World) genesis() band.GenesisState {
 		og.DataSources = append(og.DataSources, oracletypes.NewDataSource(
 			w.Owner.Addr, fmt.Sprintf("ds%d", i+1), "", hash, ds.Fee, w.Treasuries[ds.Treasury].Addr))
 	}
-	wasms := [][]byte{testdata.Wasm1, Wat2Wasm(watFail1), testdata.Wasm4, Wat2Wasm(watOK1)}
+	wasms := [][]byte{testdata.Wasm1, Wat2Wasm(watFail1), testdata.Wasm4, Wat2Wasm(watOK1), Wat2Wasm(watOKNil)}
 	for i, code := range wasms {
 		hash := fc.AddFile(testdata.Compile(code))
 		og.OracleScripts = append(og.OracleScripts, oracletypes.NewOracleScript(
